@@ -170,7 +170,9 @@ def run_property(repo: Repo, prop: str, tier: str, only_rules=None) -> Result:
         ctx = Ctx(repo, s, tier)
         s.func(ctx)
         mine = [o for o in ctx.obs if prop in o.props]
-        if len(ctx.obs) < s.floor:
+        if len(ctx.obs) < s.floor and all(o.ok for o in ctx.obs):
+            # (a rule that already reports a violation may stop early; that is a verdict,
+            # not a vanished anchor)
             raise AnalysisError(
                 f"[{s.rid}] only {len(ctx.obs)} instance(s) found, floor is {s.floor}: "
                 "the rule's anchors no longer match the code"
